@@ -54,7 +54,7 @@ def nodeOpsS (tbl : List PrefixRow) (net : Net) (sn : List Nat) (ix : Idx) (stri
     let i2 := (nd.inPin 2).getD z
     let i3 := (nd.inPin 3).getD z
     if nd.lkind == "__fork__" then
-      if strip then [] else nd.outs.filterMap fun o => o.map fun l => OpRow.mk BUF1 l i0 i1 i2 i3
+      if strip then [] else nd.outs.zipIdx.filterMap fun (o, _) => o.map fun l => OpRow.mk BUF1 l i0 i1 i2 i3
     else
       match selectPrim tbl nd.lkind (i2 != z) (i3 != z) with
       | some sp => [OpRow.mk sp o0 i0 i1 i2 i3]
